@@ -99,11 +99,10 @@ class Saveable:
             self.hashes = load_parcel(hfile)
             
         if tag is None:
-            try:
-                last = list(self.hashes.keys())[-1]
-            except IndexError:
-                last = 0
-            tag = last + 1
+            # a fresh tag: one more than the largest integer tag in use
+            ints = [k for k in self.hashes
+                    if isinstance(k, int) and not isinstance(k, bool)]
+            tag = max(ints, default=0) + 1
             
 
         # get a unique name for the file            
